@@ -27,7 +27,8 @@ pub fn generate_optimization_report(
     optimizations.sort_by_key(|(pattern, _)| pattern_order.iter().position(|p| p == pattern));
 
     for optimization in optimizations {
-        if optimization.1.len() > 0 {
+        //a pattern is rendered when it has at least one finding, ie. a file with at least one line
+        if optimization.1.iter().any(|(_, lines)| lines.len() > 0) {
             let optimization_target = optimization.0;
             let mut matches = optimization.1;
             matches.sort();
